@@ -11,6 +11,10 @@ tie             : translator -- every public Quantity of symplyphysics/quantitie
                       ident_<id>         : |lhs / rhs - 1| <= tol_identity                               (interval)
                       ident_dim_<id>     : the dimensions of both sides agree                            (vm_compute)
                   are generated and kernel-checked.  The table is finite and checked exhaustively.
+stability       : after the proofs every constant is exercised (Quantity(c), Quantity(c, dimension=other), Quantity(2*c), abs,
+                  expressions, conversions, printing; catalogue modules using constants imported and their calculate_* called)
+                  and the table re-read: value, dimension (attribute and SI registry), display names, object identity must be
+                  unchanged; a difference names the constant, the field and the operation.
 search          : a failed lemma is re-evaluated numerically (50 digits) from the live value and the reference parsed
                   from Consts.v; the violation names the constant and both numbers."""
 from __future__ import annotations
@@ -29,6 +33,14 @@ from vp.common import COQ
 STATIC = ["c20_refs_consistent", "c20_refs_dims_wellformed", "c20_refs_dims_consistent"]
 
 MODULE = "symplyphysics.quantities"
+
+# the constants of the pinned tree: each must still exist (reserve entries of Consts.v need not)
+BASELINE = ["standard_conditions_temperature", "standard_laboratory_temperature", "electron_rest_mass", "bohr_radius",
+    "hydrogen_ionization_energy", "solar_mass", "earth_mass", "boltzmann_constant", "molar_gas_constant", "speed_of_light",
+    "vacuum_permittivity", "vacuum_permeability", "elementary_charge", "hbar", "planck", "avogadro_constant",
+    "acceleration_due_to_gravity", "stefan_boltzmann_constant", "richardson_constant", "rydberg_frequency",
+    "wien_displacement_constant", "gravitational_constant", "hubble_constant", "zero_point_luminosity", "sun_luminosity",
+    "faraday_constant", "vacuum_impedance"]
 
 PREAMBLE_R = """From Coq Require Import Reals.
 From Interval Require Import Tactic.
@@ -229,6 +241,228 @@ def frac_lit(fr: Fraction) -> str:
     return f"({fr.numerator} / {fr.denominator})"
 
 
+
+# ---------------------------------------------------------------------------------------------
+# stability: using the constants the way library code does must not change the catalogue
+# ---------------------------------------------------------------------------------------------
+
+def snapshot(mod):
+    """Everything the property is about, per public Quantity of the module: object identity, scale factor (attribute and
+    SI registry), dimension (attribute and SI registry), display names."""
+    from symplyphysics.core.symbols.quantities import Quantity  # pylint: disable=import-outside-toplevel
+    from sympy.physics.units.systems.si import SI  # pylint: disable=import-outside-toplevel
+    snap = {}
+    for name, q in vars(mod).items():
+        if name.startswith("_") or not isinstance(q, Quantity):
+            continue
+        def dv(d):
+            try:
+                return tuple(str(x) for x in qx.dim_vec(d))
+            except Exception as e:  # pylint: disable=broad-except
+                return f"{type(e).__name__}: {e}"[:80]
+        def grab(fn):
+            try:
+                return fn()
+            except Exception as e:  # pylint: disable=broad-except
+                return f"{type(e).__name__}: {e}"[:80]
+        snap[name] = {
+            "object_id": id(q),
+            "scale_factor": grab(lambda: sympy.srepr(q.scale_factor)),
+            "registry_scale_factor": grab(lambda: sympy.srepr(SI.get_quantity_scale_factor(q))),
+            "dimension": grab(lambda: dv(q.dimension)),
+            "registry_dimension": grab(lambda: dv(SI.get_quantity_dimension(q))),
+            "display_name": grab(lambda: str(q.display_name)),
+            "display_latex": grab(lambda: str(getattr(q, "display_latex", None))),
+            "sympy_name": grab(lambda: str(q.name)),
+        }
+    return snap
+
+
+def snap_diff(a, b):
+    out = []
+    for name in sorted(set(a) | set(b)):
+        if name not in a or name not in b:
+            out.append((name, "presence", name in a, name in b))
+            continue
+        for k in a[name]:
+            if a[name][k] != b[name].get(k):
+                out.append((name, k, a[name][k], b[name].get(k)))
+    return out
+
+
+def constant_operations(c, name):
+    """(label, thunk) -- the ways library and user code touches an exported constant.  Thunks return the new object(s)
+    so that identity with the constant can be checked."""
+    from symplyphysics import Quantity, convert_to_si, convert_to, units  # pylint: disable=import-outside-toplevel
+    from symplyphysics.core.dimensions import dimension_to_si_unit  # pylint: disable=import-outside-toplevel
+    from sympy.physics.units.systems.si import dimsys_SI  # pylint: disable=import-outside-toplevel
+    other = units.length if dimsys_SI.equivalent_dims(c.dimension, units.energy) else units.energy
+    return [
+        ("Quantity(c)", lambda: Quantity(c), True),
+        (f"Quantity(c, dimension={other.name})", lambda: Quantity(c, dimension=other), True),
+        ("Quantity(c, dimension=c.dimension)", lambda: Quantity(c, dimension=c.dimension), True),
+        ("Quantity(2*c)", lambda: Quantity(2 * c), True),
+        ("Quantity(c*c/c + c)", lambda: Quantity(c * c / c + c), True),
+        ("abs(c)", lambda: abs(c), False),
+        ("convert_to_si(c)", lambda: convert_to_si(c), False),
+        ("convert_to(c, SI unit)", lambda: convert_to(c, dimension_to_si_unit(c.dimension)), False),
+        ("str / code_str / latex", lambda: (str(c), sympy.latex(c)), False),
+        ("Quantity(c, display_symbol='tmp')", lambda: Quantity(c, display_symbol="tmp"), True),
+    ]
+
+
+def run_operation(mod, name, label):
+    c = getattr(mod, name)
+    for lab, thunk, fresh in constant_operations(c, name):
+        if lab == label:
+            try:
+                res = thunk()
+                return res, fresh, None
+            except Exception as e:  # pylint: disable=broad-except
+                return None, fresh, f"{type(e).__name__}: {e}"[:200]
+    return None, False, "unknown operation"
+
+
+def catalogue_users(ctx):
+    """Catalogue modules whose source mentions `quantities.` (they use exported constants)."""
+    import symplyphysics  # pylint: disable=import-outside-toplevel
+    root = Path(symplyphysics.__file__).resolve().parent
+    mods = []
+    for top in ("laws", "definitions", "conditions"):
+        for f in sorted((root / top).rglob("*.py")):
+            if f.name == "__init__.py":
+                continue
+            try:
+                if "quantities." in f.read_text():
+                    mods.append("symplyphysics." + ".".join(f.relative_to(root).with_suffix("").parts))
+            except OSError:
+                continue
+    return mods
+
+
+def call_calculators(module, rng):
+    """Call every calculate_* of the module with SI quantities built from its validate_input declarations."""
+    import inspect  # pylint: disable=import-outside-toplevel
+    from symplyphysics import Quantity  # pylint: disable=import-outside-toplevel
+    from symplyphysics.core.dimensions import dimension_to_si_unit  # pylint: disable=import-outside-toplevel
+    from sympy.physics.units import Dimension  # pylint: disable=import-outside-toplevel
+    calls = []
+    for fname, fn in sorted(vars(module).items()):
+        if not (fname.startswith("calculate_") and callable(fn) and getattr(fn, "__module__", None) == module.__name__):
+            continue
+        specs = {}
+        f = fn
+        while f is not None:
+            try:
+                nl = inspect.getclosurevars(f).nonlocals
+            except TypeError:
+                nl = {}
+            if "decorator_kwargs" in nl:
+                specs.update(nl["decorator_kwargs"])
+            f = getattr(f, "__wrapped__", None)
+        kwargs = {}
+        try:
+            for pname in inspect.signature(fn).parameters:
+                spec = specs.get(pname)
+                if spec is None:
+                    kwargs[pname] = rng.choice([1, 2, 3])
+                    continue
+                spec0 = spec[0] if isinstance(spec, (tuple, list)) else spec
+                d = getattr(spec0, "dimension", spec0)
+                if not isinstance(d, Dimension):
+                    kwargs[pname] = Quantity(spec0)
+                    continue
+                mag = rng.choice([1, 2, 3, 5])
+                kwargs[pname] = Quantity(mag * dimension_to_si_unit(d), dimension=d)
+            fn(**kwargs)
+            calls.append((fname, "ok"))
+        except Exception as e:  # pylint: disable=broad-except
+            calls.append((fname, f"{type(e).__name__}"))
+    return calls
+
+
+def stability(ctx, rows_first):
+    """After the table has been read and proved: exercise the constants, re-read, require the first reading."""
+    import importlib  # pylint: disable=import-outside-toplevel
+    mod = importlib.import_module(MODULE)
+    base = ctx.snapshot0
+    cur = base
+    nops = 0
+    reported = 0
+    names = [n for n in base]
+
+    def report(changes, operation, kind):
+        nonlocal reported
+        for (name, fld, before, after) in changes:
+            if reported >= 12:
+                return
+            reported += 1
+            ctx.violation(f"C20:stability:{name}:{fld}:{operation}",
+                f"exported constant {name} changed its {fld} from {before!r} to {after!r} after `{operation}`",
+                {"kind": "violation", "item": name, "input": {"constant": name, "operation": operation, "stage": kind},
+                 "observed": {fld: after}, "expected": {fld: before},
+                 "theorem_or_tie": "stability of the catalogue: the table read before and after use must be identical"},
+                found_input=True)
+
+    for name in names:
+        c = getattr(mod, name)
+        for label, _thunk, fresh in constant_operations(c, name):
+            res, fresh, err = run_operation(mod, name, label)
+            nops += 1
+            if fresh and err is None and res is getattr(mod, name):
+                if reported < 12:
+                    reported += 1
+                    ctx.violation(f"C20:stability:{name}:identity:{label}",
+                        f"`{label}` with c = quantities.{name} returned the exported constant object itself instead of a new quantity",
+                        {"kind": "violation", "item": name, "input": {"constant": name, "operation": label, "stage": "operation"},
+                         "observed": "result is quantities." + name, "expected": "a new Quantity object",
+                         "theorem_or_tie": "stability of the catalogue (object identity)"}, found_input=True)
+            new = snapshot(mod)
+            d = snap_diff(cur, new)
+            if d:
+                report(d, f"{label} with c = quantities.{name}", "operation")
+                cur = new
+    ctx.coverage["stability_operations"] = nops
+
+    users = catalogue_users(ctx)
+    sample = users if not ctx.quick else ctx.rng.sample(users, min(30, len(users)))
+    ncalls, nok, nimp = 0, 0, 0
+    for mname in sample:
+        try:
+            m = importlib.import_module(mname)
+            nimp += 1
+        except Exception:  # pylint: disable=broad-except
+            continue
+        calls = call_calculators(m, ctx.rng)
+        ncalls += len(calls)
+        nok += sum(1 for _f, r in calls if r == "ok")
+        new = snapshot(mod)
+        d = snap_diff(cur, new)
+        if d:
+            report(d, f"import {mname}; " + ", ".join(f for f, _r in calls), "catalogue")
+            cur = new
+    ctx.coverage["stability_catalogue_modules_using_constants"] = len(users)
+    ctx.coverage["stability_modules_imported"] = nimp
+    ctx.coverage["stability_calculate_calls"] = ncalls
+    ctx.coverage["stability_calculate_calls_returned"] = nok
+
+    # final re-read with the translator itself: what was proved must still be what the module says
+    final = snapshot(mod)
+    d = snap_diff(base, final)
+    seen = {(v.replay.get("item"), ) for v in ctx.violations if v.key.startswith("C20:stability:")}
+    report([x for x in d if (x[0],) not in seen], "the whole stability stage", "final")
+    rows_again = {r["name"]: r for r in read_catalogue(ctx)}
+    for r in rows_first:
+        a = rows_again.get(r["name"])
+        same = a is not None and a.get("error") == r.get("error") and a.get("term") == r.get("term") and a.get("dim") == r.get("dim")
+        if not same and (r["name"],) not in seen and not any(x[0] == r["name"] for x in d):
+            report([(r["name"], "translated value / dimension", (r.get("term"), r.get("dim")),
+                (a or {}).get("term"), )], "the whole stability stage", "final")
+    ctx.coverage["stability_changes"] = reported
+    ctx.evaluated(nops + ncalls, nops)
+    ctx.sample({"stability": f"{nops} operations on {len(names)} constants, {nimp} modules imported, {ncalls} calculate_* calls "
+        f"({nok} returned), {reported} changes"})
+
 # ---------------------------------------------------------------------------------------------
 
 def run(ctx):
@@ -246,7 +480,9 @@ def run(ctx):
         "unit in the last digit of the least precise numeric literal of the defining expression, read from the live source)",
         "a binary float of the source denotes exactly its dyadic rational value")
     refs, tols, dims, _misc = parse_consts()
+    import importlib  # pylint: disable=import-outside-toplevel
     rows = read_catalogue(ctx)
+    ctx.snapshot0 = snapshot(importlib.import_module(MODULE))
     good = [r for r in rows if r["error"] is None]
     by_name = {r["name"]: r for r in good}
 
@@ -262,7 +498,7 @@ def run(ctx):
             {"kind": "broken-tie", "item": n, "theorem_or_tie": "reference table coverage",
              "observed": {"si_value": str(sympy.N(by_name[n]["si"], 15)), "dimension": [str(x) for x in by_name[n]["dim"]]}},
             found_input=False)
-    missing = [n for n in refs if n not in by_name and n not in {r["name"] for r in rows}]
+    missing = [n for n in BASELINE if n not in by_name and n not in {r["name"] for r in rows}]
     for n in missing:
         ctx.violation(f"C20:missing:{n}", f"constant {n} of the reference table is no longer defined by the catalogue",
             {"kind": "broken-tie", "item": n, "theorem_or_tie": "reference table coverage"}, found_input=False)
@@ -371,6 +607,7 @@ def run(ctx):
                  "theorem_or_tie": f"generated lemma ident_dim_{i[0]}: {i[3]}"}, found_input=True)
 
     ctx.evaluated(len(rows) + len(ids_ok), len(checked) + len(ids_ok))
+    stability(ctx, rows)
     ctx.coverage["constants"] = len(rows)
     ctx.coverage["constants_checked"] = len(checked)
     ctx.coverage["not_in___all__"] = [r["name"] for r in rows if not r["in_all"]]
